@@ -179,3 +179,118 @@ Proof.
   - destruct (WF.wf_output _ W) as [n [Hn Ht]]. exists n. split; assumption.
 Qed.
 Print Assumptions C01_wf_expressible.
+
+(* ---- random construction (newGenomeRand, NewPopulationRandom; model/RandGenome.v, validated against the real
+   functions by the correspondence shards 200+ of C01).  For every tape, every option record and all parameters
+   with at least one input and one output and 0 <= n <= maxHidden: a genome that new_genome_rand returns has
+   every component of [wf] except "has a gene"; so the randomly constructed genomes with at least one connection
+   gene are well-formed. ---- *)
+From NeatModel Require Import RandGenome RandGenomeSpec.
+From NeatModel Require GoSource GenomeLit RandCases.
+
+Theorem C01_random_genome_components : forall o new_id in_ out n max_hidden recurrent link_prob s g s',
+    1 <= in_ -> 1 <= out -> 0 <= n <= max_hidden ->
+    new_genome_rand o new_id in_ out n max_hidden recurrent link_prob s = Ok (g, s') ->
+    asc n_id (nodes g) /\ asc g_innov (genes g) /\
+    (forall x, In x (genes g) ->
+               exists a b, node_with_id (g_in x) (nodes g) = Some a /\ node_with_id (g_out x) (nodes g) = Some b /\
+                           is_sensor b = false) /\
+    NoDup (map (fun x => (g_in x, g_out x, g_rec x)) (genes g)) /\
+    NoDup (map (fun x => (g_in x, g_out x)) (genes g)) /\
+    trait_refs_ok g /\ traits_ok g /\ has_output g /\ modules g = [] /\ gid g = new_id /\ s_env s' = s_env s.
+Proof. exact new_genome_rand_components. Qed.
+Print Assumptions C01_random_genome_components.
+
+Theorem C01_random_genome_wf : forall o new_id in_ out n max_hidden recurrent link_prob s g s',
+    1 <= in_ -> 1 <= out -> 0 <= n <= max_hidden ->
+    new_genome_rand o new_id in_ out n max_hidden recurrent link_prob s = Ok (g, s') ->
+    genes g <> [] -> wf g.
+Proof. exact new_genome_rand_wf. Qed.
+Print Assumptions C01_random_genome_wf.
+
+(* the documented nodes: inputs 1..in-1 and the bias in (NullActivation = 17), hidden in+1..in+n with one of the
+   registered activations, outputs in+maxHidden+1..in+maxHidden+out (SigmoidSteepened = 4), all on trait 1,
+   and no other node *)
+Theorem C01_random_genome_nodes : forall o new_id in_ out n max_hidden recurrent link_prob s g s',
+    1 <= in_ -> 1 <= out -> 0 <= n <= max_hidden ->
+    new_genome_rand o new_id in_ out n max_hidden recurrent link_prob s = Ok (g, s') ->
+    (forall i, 1 <= i <= in_ ->
+               node_with_id i (nodes g) =
+               Some {| n_id := i; n_type := (if Z.eqb i in_ then BIAS else INPUT); n_act := 17; n_trait := Some 1 |}) /\
+    (forall i, in_ < i <= in_ + n ->
+               exists a, node_with_id i (nodes g) = Some {| n_id := i; n_type := HIDDEN; n_act := a; n_trait := Some 1 |} /\
+                         In a (o_activators o)) /\
+    (forall i, in_ + max_hidden + 1 <= i <= in_ + max_hidden + out ->
+               node_with_id i (nodes g) = Some {| n_id := i; n_type := OUTPUT; n_act := 4; n_trait := Some 1 |}) /\
+    (forall x, In x (nodes g) -> 1 <= n_id x <= in_ + n \/ in_ + max_hidden + 1 <= n_id x <= in_ + max_hidden + out).
+Proof. exact new_genome_rand_nodes. Qed.
+Print Assumptions C01_random_genome_nodes.
+
+(* the genes: the innovation number is the position of the matrix cell (column = target, row = source), no gene
+   ends in a sensor, the recurrence flag is set exactly on and above the diagonal and only if recurrent links were
+   asked for, every gene is enabled, on trait 1, with mutation number = weight *)
+Theorem C01_random_genome_genes : forall o new_id in_ out n max_hidden recurrent link_prob s g s',
+    1 <= in_ -> 1 <= out -> 0 <= n <= max_hidden ->
+    new_genome_rand o new_id in_ out n max_hidden recurrent link_prob s = Ok (g, s') ->
+    forall x, In x (genes g) ->
+      let T := in_ + out + max_hidden in
+      1 <= g_in x <= T /\ in_ < g_out x <= T /\ g_innov x = (g_out x - 1) * T + (g_in x - 1) /\ 0 <= g_innov x < T * T /\
+      g_rec x = negb (Z.gtb (g_out x) (g_in x)) /\ (g_rec x = true -> recurrent = true) /\
+      g_en x = true /\ g_trait x = Some 1 /\ g_mut x = g_w x.
+Proof. exact new_genome_rand_genes. Qed.
+Print Assumptions C01_random_genome_genes.
+
+(* population level: every genome of a randomly constructed population (looked up through any key) that has a
+   connection gene is well-formed; all genomes carry the same input, bias and output nodes; the population's
+   counters lie above every innovation number and node id in use *)
+Theorem C01_random_population_wf : forall o in_ out max_hidden recurrent link_prob s p s',
+    1 <= in_ -> 1 <= out ->
+    new_population_random o in_ out max_hidden recurrent link_prob s = Ok (p, s') ->
+    forall k x, hget (p_heap p) k = Ok x ->
+      (genes (o_genome x) <> [] -> wf (o_genome x)) /\
+      (forall i, 1 <= i <= in_ ->
+                 node_with_id i (nodes (o_genome x)) =
+                 Some {| n_id := i; n_type := (if Z.eqb i in_ then BIAS else INPUT); n_act := 17; n_trait := Some 1 |}) /\
+      (forall i, in_ + max_hidden + 1 <= i <= in_ + max_hidden + out ->
+                 node_with_id i (nodes (o_genome x)) = Some {| n_id := i; n_type := OUTPUT; n_act := 4; n_trait := Some 1 |}) /\
+      (forall y, In y (genes (o_genome x)) -> 0 <= g_innov y < next_innov (s_env s') - 1) /\
+      (forall m, In m (nodes (o_genome x)) -> 1 <= n_id m < next_node (s_env s')).
+Proof. exact new_population_random_wf. Qed.
+Print Assumptions C01_random_population_wf.
+
+(* non-vacuity: on the stream of rand.Seed(42) the constructor returns a genome with genes (3 inputs, 2 outputs,
+   2 of 3 hidden nodes, recurrent links, link probability 1/2, two registered activators), and
+   NewPopulationRandom returns a population of 4 genomes that all have genes *)
+Definition c01_rand_opts : options :=
+  GenomeLit.OPT [0%float; 0%float; 0%float; 1%float; 1%float; 0x1p-1%float; 3%float] 4 15 20 0 false [4; 11] [0x1p-1%float; 0x1p-1%float].
+Definition c01_rand_st : st :=
+  {| s_tape := GoSource.go_tape 42 2000; s_env := {| Genome.innovs := []; next_innov := 0; next_node := 0 |} |}.
+
+Example C01_random_genome_nonvacuous :
+  exists g s', new_genome_rand c01_rand_opts 7 3 2 2 3 true 0x1p-1%float c01_rand_st = Ok (g, s') /\
+               genes g <> [] /\ (length (nodes g) = 7)%nat.
+Proof.
+  assert (H : match new_genome_rand c01_rand_opts 7 3 2 2 3 true 0x1p-1%float c01_rand_st with
+              | Ok (g, _) => negb (Nat.eqb (length (genes g)) 0) && Nat.eqb (length (nodes g)) 7
+              | _ => false
+              end = true) by (vm_compute; reflexivity).
+  destruct (new_genome_rand c01_rand_opts 7 3 2 2 3 true 0x1p-1%float c01_rand_st) as [[g s']| | | | |]; try discriminate H.
+  exists g, s'. split; [reflexivity|]. apply andb_true_iff in H. destruct H as [H1 H2]. split.
+  - intros E. rewrite E in H1. discriminate H1.
+  - apply Nat.eqb_eq. exact H2.
+Qed.
+
+Example C01_random_population_nonvacuous :
+  exists p s', new_population_random c01_rand_opts 3 2 3 true 0x1p-1%float c01_rand_st = Ok (p, s') /\
+               (length (p_heap p) = 4)%nat /\
+               forallb (fun x => negb (Nat.eqb (length (genes (o_genome x))) 0)) (p_heap p) = true.
+Proof.
+  assert (H : match new_population_random c01_rand_opts 3 2 3 true 0x1p-1%float c01_rand_st with
+              | Ok (p, _) => Nat.eqb (length (p_heap p)) 4 &&
+                             forallb (fun x => negb (Nat.eqb (length (genes (o_genome x))) 0)) (p_heap p)
+              | _ => false
+              end = true) by (vm_compute; reflexivity).
+  destruct (new_population_random c01_rand_opts 3 2 3 true 0x1p-1%float c01_rand_st) as [[p s']| | | | |]; try discriminate H.
+  exists p, s'. split; [reflexivity|]. apply andb_true_iff in H. destruct H as [H1 H2]. split; [|exact H2].
+  apply Nat.eqb_eq. exact H1.
+Qed.
